@@ -18,7 +18,7 @@ import xitorch
 
 from vlib import tlc as tlcmod
 from vlib.ctx import Machinery, SPEC
-from vlib.problems import Repr, Boom, base_tensors, run_functional, contraction, FUNCTIONALS, METHOD_OPTS
+from vlib.problems import Repr, Boom, Abort, base_tensors, run_functional, contraction, FUNCTIONALS, METHOD_OPTS
 from vlib.substrace import Recorder
 from vlib.substreplay import Replayer
 
@@ -172,12 +172,14 @@ def sim_replay(ctx, pat, num, depth):
 
 
 # ------------------------------------------------------------------ code -> spec
-def record(fname, kind, opts, bck, phase, crash_at, debug, seed, tid):
+def record(fname, kind, opts, bck, phase, crash_at, debug, seed, tid, abort=False):
     W, c = base_tensors(seed)
     R = Repr(kind, W, c)
     rec = Recorder(R.objects)
     R.ticker.on_eval = rec.on_eval
     R.ticker.crash_at = crash_at
+    if abort:
+        R.ticker.crash_exc = Abort
     exc = None
     dbg0 = xitorch.is_debug_enabled()
     import io
@@ -191,7 +193,7 @@ def record(fname, kind, opts, bck, phase, crash_at, debug, seed, tid):
                 if phase >= 2:
                     L2 = sum((gi ** 2).sum() for gi in g if gi is not None)
                     torch.autograd.grad(L2, R.leaves, allow_unused=True)
-        except Boom as e:
+        except (Boom, Abort) as e:
             exc = e
         except Exception as e:          # other failures of the call itself are not C10's business, restoration is
             exc = e
@@ -264,9 +266,9 @@ def crash_traces(ctx, thorough):
     traces = []
     tid = [0]
 
-    def add(fname, kind, opts, bck, phase, k, debug=False):
+    def add(fname, kind, opts, bck, phase, k, debug=False, abort=False):
         tid[0] += 1
-        tr, cnt = record(fname, kind, opts, bck, phase, k, debug, ctx.seed, tid[0])
+        tr, cnt = record(fname, kind, opts, bck, phase, k, debug, ctx.seed, tid[0], abort=abort)
         traces.append(tr)
         return cnt
     for fname in FUNCTIONALS:
@@ -288,6 +290,11 @@ def crash_traces(ctx, thorough):
                         for k in ks:
                             if 1 <= k <= K:
                                 add(fname, kind, opts, bck, phase, k)
+                        # the same fault points with a failure that is not an Exception (quick: first option set, a subset of points)
+                        if oi == 0 and bck is None and phase >= 1:
+                            for k in (ks if thorough else sorted(set([K // 2, K - 2, K - 1, K]))):
+                                if 1 <= k <= K:
+                                    add(fname, kind, opts, bck, phase, k, abort=True)
     # a LinearOperator product raises (solve / symeig on a user-defined operator)
     for which, methods in (("solve", ("cg", "bicgstab") if not thorough else ("cg", "bicgstab", "gmres", "broyden1", "custom_exactsolve")),
                            ("symeig", ("davidson",) if not thorough else ("davidson", "custom_exacteig"))):
